@@ -45,6 +45,9 @@ struct Job {
     /// the classes of a module are handed to ModuleData::extend() in this many consecutive batches (0/1 = all at once)
     #[serde(default)]
     batches: usize,
+    /// run the descriptions through metatype_tweak::apply_all() first, as the command line's loader does
+    #[serde(default)]
+    tweak: bool,
     /// class names to query (may include names that are not classes)
     subjects: Vec<String>,
     #[serde(default)]
@@ -92,7 +95,12 @@ fn run_job(job: Job) -> Value {
     let mut type_map = TypeMap::with_primitive_types();
     let mut module_data = ModuleData::with_builtins();
     let batches = job.batches;
-    extend_in_batches(&mut module_data, job.classes, batches);
+    let tweak = job.tweak;
+    let mut classes = job.classes;
+    if tweak {
+        qmluic::metatype_tweak::apply_all(&mut classes);
+    }
+    extend_in_batches(&mut module_data, classes, batches);
     module_data.extend(job.enums);
     let module_id = ModuleId::Named("vf");
     type_map.insert_module(module_id, module_data);
@@ -102,7 +110,11 @@ fn run_job(job: Job) -> Value {
         for i in &m.imports {
             data.import_module(ModuleId::Named(i));
         }
-        extend_in_batches(&mut data, m.classes, batches);
+        let mut classes = m.classes;
+        if tweak {
+            qmluic::metatype_tweak::apply_all(&mut classes);
+        }
+        extend_in_batches(&mut data, classes, batches);
         type_map.insert_module(ModuleId::Named(&m.name), data);
     }
     let module = type_map.get_module(module_id).unwrap();
